@@ -1,17 +1,18 @@
 #!/bin/bash
 # tools/dev.sh <pkg> <go test args...>   (env SEED=<seed name> applies that seed's patch first)
-# Runs a harness package from a copy of the current /verif working tree (/tmp/vdev) against a scratch worktree of
-# /repo's HEAD (/tmp/cleanrepo), so that /repo itself is not needed. Development aid only.
+# Runs a harness package from a copy of the current /verif working tree (/tmp/vdev$SLOT) against a scratch worktree of
+# (SLOT=<n> selects an independent pair of scratch directories, so several can run at once)
+# /repo's HEAD (/tmp/cleanrepo$SLOT), so that /repo itself is not needed. Development aid only.
 pkg=$1; shift
 export GOFLAGS=-mod=mod GOPROXY=off GOSUMDB=off GOTOOLCHAIN=local
-[ -d /tmp/cleanrepo ] || git -C /repo worktree add -q --detach /tmp/cleanrepo HEAD
-git -C /tmp/cleanrepo checkout -q --detach $(git -C /repo rev-parse HEAD) 2>/dev/null
-git -C /tmp/cleanrepo checkout -q -- . && git -C /tmp/cleanrepo clean -fdq
-rsync -a --delete --exclude .build --exclude replays --exclude .git --exclude harness/go.mod /verif/ /tmp/vdev/
-[ -f /tmp/vdev/harness/go.mod ] || cp /verif/harness/go.mod /tmp/vdev/harness/go.mod
-(cd /tmp/vdev/harness && go mod edit -replace github.com/vx-labs/wasp/v4=/tmp/cleanrepo)
-if [ -n "$SEED" ]; then git -C /tmp/cleanrepo apply /verif/seeded/$SEED/patch.diff || exit 3; fi
-(cd /tmp/vdev/harness/$pkg && VERIF_REPLAY_DIR=/tmp/vdev-replays VERIF_OUT=/tmp/vdev-out.json go test -tags verif . "$@" 2>&1 | grep -v '^WARNING conda')
+[ -d /tmp/cleanrepo$SLOT ] || git -C /repo worktree add -q --detach /tmp/cleanrepo$SLOT HEAD
+git -C /tmp/cleanrepo$SLOT checkout -q --detach $(git -C /repo rev-parse HEAD) 2>/dev/null
+git -C /tmp/cleanrepo$SLOT checkout -q -- . && git -C /tmp/cleanrepo$SLOT clean -fdq
+rsync -a --delete --exclude .build --exclude replays --exclude .git --exclude harness/go.mod /verif/ /tmp/vdev$SLOT/
+[ -f /tmp/vdev$SLOT/harness/go.mod ] || cp /verif/harness/go.mod /tmp/vdev$SLOT/harness/go.mod
+(cd /tmp/vdev$SLOT/harness && go mod edit -replace github.com/vx-labs/wasp/v4=/tmp/cleanrepo$SLOT)
+if [ -n "$SEED" ]; then git -C /tmp/cleanrepo$SLOT apply /verif/seeded/$SEED/patch.diff || exit 3; fi
+(cd /tmp/vdev$SLOT/harness/$pkg && VERIF_REPLAY_DIR=/tmp/vdev$SLOT-replays VERIF_OUT=/tmp/vdev$SLOT-out.json go test -tags verif . "$@" 2>&1 | grep -v '^WARNING conda')
 rc=${PIPESTATUS[0]}
-git -C /tmp/cleanrepo checkout -q -- . && git -C /tmp/cleanrepo clean -fdq
+git -C /tmp/cleanrepo$SLOT checkout -q -- . && git -C /tmp/cleanrepo$SLOT clean -fdq
 exit $rc
